@@ -32,6 +32,9 @@ func (s *genState) genKind(nd *Node, gi, depth int, wantSub bool) {
 		nd.Kind, nd.Ty = "comp", tyNone
 	default:
 		nd.Kind, nd.Ty = "comp", s.pool[r.Intn(len(s.pool))]
+		if (nd.Ty == tyLambdaA || nd.Ty == tyLambdaB) && r.Chance(2, 3) {
+			nd.Nat = r.Range(1, 5) // the lambda is native in another paradigm than Invoke
+		}
 	}
 }
 
